@@ -712,4 +712,311 @@ theorem rfcDurBody_durBodyOf (a : Nat) : rfcDurBody (durBodyOf a) = some a := by
       rw [rfcDurDate_of (rfcNum_hit 'D' (by decide) (a / 86400) _), if_neg (by simp), hT]
       simp; omega
 
+/-! ## DURATION: every RFC `dur-value` through the regex matcher -/
+
+theorem rfcNum_inv {v : Char} {l : Str} {n : Nat} {r : Str} (h : rfcNum v l = some (n, r)) :
+    ∃ d ds, spanDigits l = (d :: ds, v :: r) ∧ n = ofDigits (d :: ds) := by
+  unfold rfcNum at h
+  split at h
+  · cases h
+  · cases h
+  · next _ ds c rest hne heq =>
+    split at h
+    · next hc =>
+      cases h
+      cases ds with
+      | nil => exact absurd rfl hne
+      | cons d ds => exact ⟨d, ds, by rw [heq, hc], rfl⟩
+    · cases h
+
+theorem optUnit_of_rfcNum {u v : Char} {l : Str} {n : Nat} {r : Str} (h : rfcNum v l = some (n, r)) :
+    optUnit u l = if v = u then (n, r) else (0, l) := by
+  obtain ⟨d, ds, hs, rfl⟩ := rfcNum_inv h
+  unfold optUnit
+  rw [hs]
+
+theorem rfcDurSecond_inv {l : Str} {sv : Nat} (h : rfcDurSecond l = some sv) : rfcNum 'S' l = some (sv, []) := by
+  unfold rfcDurSecond at h
+  split at h
+  · next n heq => cases h; exact heq
+  · cases h
+
+theorem durMinute_regex {l : Str} {mv : Nat} (h : rfcDurMinute l = some mv) :
+    ∃ m s, optUnit 'H' l = (0, l) ∧ optUnit 'M' l = (m, (optUnit 'M' l).2) ∧
+      optUnit 'S' (optUnit 'M' l).2 = (s, []) ∧ m * 60 + s = mv := by
+  cases hn : rfcNum 'M' l with
+  | none => rw [rfcDurMinute_none hn] at h; cases h
+  | some p =>
+    obtain ⟨n, r⟩ := p
+    rw [rfcDurMinute_of hn] at h
+    have hH : optUnit 'H' l = (0, l) := by rw [optUnit_of_rfcNum hn]; simp
+    have hM : optUnit 'M' l = (n, r) := by rw [optUnit_of_rfcNum hn]; simp
+    split at h
+    · next hr =>
+      cases h; subst hr
+      exact ⟨n, 0, hH, by rw [hM], by rw [hM]; simp, by simp⟩
+    · next hr =>
+      cases hs : rfcDurSecond r with
+      | none => rw [hs] at h; cases h
+      | some sv =>
+        rw [hs] at h; cases h
+        have := rfcDurSecond_inv hs
+        exact ⟨n, sv, hH, by rw [hM], by rw [hM, optUnit_of_rfcNum this]; simp, rfl⟩
+
+/-- `"T" (dur-hour / dur-minute / dur-second)` is matched by the regex's T group with the same value -/
+theorem durTime_regex {r : Str} {tv : Nat} (h : rfcDurTime r = some tv) :
+    ∃ hh mm ss, parseT r = (hh, mm, ss, []) ∧ hh * 3600 + mm * 60 + ss = tv := by
+  unfold rfcDurTime at h
+  split at h
+  · next l =>
+    simp only [parseT]
+    cases hH : rfcDurHour l with
+    | some hv =>
+      rw [hH] at h; simp only [Option.orElse_eq_or, Option.some_or, Option.none_or] at h; cases h
+      cases hn : rfcNum 'H' l with
+      | none => rw [rfcDurHour_none hn] at hH; cases hH
+      | some p =>
+        obtain ⟨n, r1⟩ := p
+        rw [rfcDurHour_of hn] at hH
+        have hU : optUnit 'H' l = (n, r1) := by rw [optUnit_of_rfcNum hn]; simp
+        split at hH
+        · next hr =>
+          subst hr; cases hH
+          refine ⟨n, 0, 0, ?_, ?_⟩
+          · rw [hU]; simp
+          · simp
+        · next hr =>
+          cases hm : rfcDurMinute r1 with
+          | none => rw [hm] at hH; cases hH
+          | some mv =>
+            rw [hm] at hH
+            simp only [Option.map_some, Option.some.injEq] at hH
+            obtain ⟨m, s, _, hM, hS, hsum⟩ := durMinute_regex hm
+            refine ⟨n, m, s, ?_, ?_⟩
+            · rw [hU]; simp only []; rw [hM] ; simp only []; rw [hS]
+            · subst hsum; subst hH; omega
+    | none =>
+      rw [hH] at h
+      simp only [Option.orElse_eq_or, Option.some_or, Option.none_or] at h
+      cases hM : rfcDurMinute l with
+      | some mv =>
+        rw [hM] at h; simp only [Option.orElse_eq_or, Option.some_or, Option.none_or] at h; cases h
+        obtain ⟨m, s, hH', hM', hS, hsum⟩ := durMinute_regex hM
+        refine ⟨0, m, s, ?_, ?_⟩
+        · rw [hH']; simp only []; rw [hM']; simp only []; rw [hS]
+        · subst hsum; omega
+      | none =>
+        rw [hM] at h; simp only [Option.orElse_eq_or, Option.some_or, Option.none_or] at h
+        have hs := rfcDurSecond_inv h
+        refine ⟨0, 0, tv, ?_, ?_⟩
+        · rw [optUnit_of_rfcNum hs]; simp only [show ¬ ('S' = 'H') by decide, if_false]
+          rw [optUnit_of_rfcNum hs]; simp only [show ¬ ('S' = 'M') by decide, if_false]
+          rw [optUnit_of_rfcNum hs]; simp
+        · omega
+  · cases h
+
+theorem parseT_nil : parseT [] = (0, 0, 0, []) := rfl
+
+theorem durBody_regex {b : Str} {v : Nat} (h : rfcDurBody b = some v) : parseDurBody b = some v := by
+  unfold rfcDurBody at h
+  split at h
+  · next l =>
+    simp only [parseDurBody]
+    cases hD : rfcDurDate l with
+    | some dv =>
+      rw [hD] at h; simp only [Option.orElse_eq_or, Option.some_or, Option.none_or] at h; cases h
+      cases hn : rfcNum 'D' l with
+      | none => rw [rfcDurDate_none hn] at hD; cases hD
+      | some p =>
+        obtain ⟨n, r⟩ := p
+        rw [rfcDurDate_of hn] at hD
+        rw [optUnit_of_rfcNum hn]; simp only [show ¬ ('D' = 'W') by decide, if_false]
+        rw [optUnit_of_rfcNum hn]; simp only [if_true]
+        split at hD
+        · next hr =>
+          subst hr; cases hD
+          simp [parseT_nil]
+        · next hr =>
+          cases ht : rfcDurTime r with
+          | none => rw [ht] at hD; cases hD
+          | some tv =>
+            rw [ht] at hD
+            simp only [Option.map_some, Option.some.injEq] at hD
+            obtain ⟨hh, mm, ss, hp, hsum⟩ := durTime_regex ht
+            rw [hp]; subst hsum; subst hD; simp; omega
+    | none =>
+      rw [hD] at h; simp only [Option.orElse_eq_or, Option.some_or, Option.none_or] at h
+      cases hT : rfcDurTime l with
+      | some tv =>
+        rw [hT] at h; simp only [Option.orElse_eq_or, Option.some_or, Option.none_or] at h; cases h
+        have hl : ∃ x, l = 'T' :: x := by
+          unfold rfcDurTime at hT; split at hT
+          · exact ⟨_, rfl⟩
+          · cases hT
+        obtain ⟨x, rfl⟩ := hl
+        obtain ⟨hh, mm, ss, hp, hsum⟩ := durTime_regex hT
+        rw [optUnit_nodigit 'W' ('T' :: x) (by intro c hc; simp at hc; subst hc; decide)]
+        simp only []
+        rw [optUnit_nodigit 'D' ('T' :: x) (by intro c hc; simp at hc; subst hc; decide)]
+        simp only []
+        rw [hp]; simp; omega
+      | none =>
+        rw [hT] at h; simp only [Option.orElse_eq_or, Option.some_or, Option.none_or] at h
+        cases hn : rfcNum 'W' l with
+        | none => rw [rfcDurWeek_none hn] at h; cases h
+        | some p =>
+          obtain ⟨n, r⟩ := p
+          rw [rfcDurWeek_of hn] at h
+          split at h
+          · next hr =>
+            subst hr; cases h
+            rw [optUnit_of_rfcNum hn]; simp [parseT_nil]
+          · cases h
+  · cases h
+
+/-- every RFC 5545 `dur-value` is matched by `DURATION_REGEX` and decodes to the RFC value -/
+theorem rfcDuration_durFrom {t : Str} {v : Int} (h : rfcDuration t = some v) : durFrom t = some v := by
+  unfold rfcDuration at h
+  unfold durFrom
+  split at h
+  · next r =>
+    cases hb : rfcDurBody r with
+    | none => rw [hb] at h; cases h
+    | some bv => rw [hb] at h; simp at h; simp [durBody_regex hb, h]
+  · next r =>
+    cases hb : rfcDurBody r with
+    | none => rw [hb] at h; cases h
+    | some bv => rw [hb] at h; simp at h; simp [durBody_regex hb, h]
+  · next r h1 h2 =>
+    cases hb : rfcDurBody t with
+    | none => rw [hb] at h; cases h
+    | some bv =>
+      rw [hb] at h; simp at h
+      simp [durBody_regex hb, h]
+
+/-! ## UTC-OFFSET -/
+
+theorem offFrom_chars5 (sg a b c d : Char)
+    (ha : isDigit a = true) (hb : isDigit b = true) (hc : isDigit c = true) (hd : isDigit d = true)
+    (hh : num2 a b < 24) (hm : num2 c d < 60) :
+    offFrom [sg, a, b, c, d] =
+      .ok (if sg = '-' then -((num2 a b * 3600 + num2 c d * 60 : Nat) : Int)
+           else ((num2 a b * 3600 + num2 c d * 60 : Nat) : Int)) := by
+  have s0 : slice [sg, a, b, c, d] 0 1 = [sg] := rfl
+  have s1 : slice [sg, a, b, c, d] 1 3 = [a, b] := rfl
+  have s2 : slice [sg, a, b, c, d] 3 5 = [c, d] := rfl
+  have s3 : slice [sg, a, b, c, d] 5 7 = [] := rfl
+  unfold offFrom
+  rw [s0, s1, s2, s3, pyIntE_2 a b ha hb, pyIntE_2 c d hc hd]
+  have hlt : ¬ ((num2 a b : Int) * 3600 + (num2 c d : Int) * 60 + 0 ≥ 86400) := by omega
+  simp only [bind, Except.bind, pure, Except.pure, List.isEmpty_nil, if_true, hlt, if_false]
+  by_cases hs : sg = '-'
+  · simp [hs]
+  · simp [hs]
+
+theorem offFrom_chars7 (sg a b c d e f : Char)
+    (ha : isDigit a = true) (hb : isDigit b = true) (hc : isDigit c = true) (hd : isDigit d = true)
+    (he : isDigit e = true) (hf : isDigit f = true)
+    (hh : num2 a b < 24) (hm : num2 c d < 60) (hs : num2 e f < 60) :
+    offFrom [sg, a, b, c, d, e, f] =
+      .ok (if sg = '-' then -((num2 a b * 3600 + num2 c d * 60 + num2 e f : Nat) : Int)
+           else ((num2 a b * 3600 + num2 c d * 60 + num2 e f : Nat) : Int)) := by
+  have s0 : slice [sg, a, b, c, d, e, f] 0 1 = [sg] := rfl
+  have s1 : slice [sg, a, b, c, d, e, f] 1 3 = [a, b] := rfl
+  have s2 : slice [sg, a, b, c, d, e, f] 3 5 = [c, d] := rfl
+  have s3 : slice [sg, a, b, c, d, e, f] 5 7 = [e, f] := rfl
+  unfold offFrom
+  rw [s0, s1, s2, s3, pyIntE_2 a b ha hb, pyIntE_2 c d hc hd, pyIntE_2 e f he hf]
+  have hlt : ¬ ((num2 a b : Int) * 3600 + (num2 c d : Int) * 60 + (num2 e f : Int) ≥ 86400) := by omega
+  simp only [bind, Except.bind, pure, Except.pure, List.isEmpty_cons, Bool.false_eq_true, if_false, hlt]
+  by_cases hs : sg = '-'
+  · simp [hs]
+  · simp [hs]
+
+/-- every RFC `utc-offset` text decodes to the RFC value -/
+theorem rfcUtcOffset_offFrom {t : Str} {v : Int} (h : rfcUtcOffset t = some v) : offFrom t = .ok v := by
+  unfold rfcUtcOffset at h
+  split at h
+  · next sg a b c d =>
+    split at h
+    · next hc =>
+      simp only [Bool.and_eq_true, decide_eq_true_iff] at hc
+      obtain ⟨⟨⟨⟨⟨⟨hsg, ha⟩, hb⟩, hc'⟩, hd⟩, hh⟩, hm⟩ := hc
+      rw [offFrom_chars5 sg a b c d ha hb hc' hd hh hm]
+      by_cases hs : sg = '-'
+      · subst hs
+        simp only [beq_self_eq_true, if_true] at h
+        split at h
+        · cases h
+        · cases h; simp
+      · have : (sg == '-') = false := by simp [hs]
+        simp only [this, Bool.false_eq_true, if_false] at h
+        cases h; simp [hs]
+    · cases h
+  · next sg a b c d e f =>
+    split at h
+    · next hc =>
+      simp only [Bool.and_eq_true, decide_eq_true_iff] at hc
+      obtain ⟨⟨⟨⟨⟨⟨⟨⟨⟨hsg, ha⟩, hb⟩, hc'⟩, hd⟩, he⟩, hf⟩, hh⟩, hm⟩, hs'⟩ := hc
+      rw [offFrom_chars7 sg a b c d e f ha hb hc' hd he hf hh hm hs']
+      by_cases hs : sg = '-'
+      · subst hs
+        simp only [beq_self_eq_true, if_true] at h
+        split at h
+        · cases h
+        · cases h; simp
+      · have : (sg == '-') = false := by simp [hs]
+        simp only [this, Bool.false_eq_true, if_false] at h
+        cases h; simp [hs]
+    · cases h
+  · cases h
+
+/-- the encoder's text for an offset below 24 h -/
+theorem offTo_eq (s : Int) (h : s.natAbs < 86400) :
+    offTo s = (if s < 0 then '-' else '+') ::
+      (if s.natAbs % 60 ≠ 0 then hmsChars (s.natAbs / 3600) (s.natAbs % 3600 / 60) (s.natAbs % 60)
+       else [dig (s.natAbs / 3600 / 10), dig (s.natAbs / 3600 % 10), dig (s.natAbs % 3600 / 60 / 10),
+             dig (s.natAbs % 3600 / 60 % 10)]) := by
+  unfold offTo hmsChars
+  simp only [pad2_eq (s.natAbs / 3600) (by omega), pad2_eq (s.natAbs % 3600 / 60) (by omega),
+    pad2_eq (s.natAbs % 60) (by omega), List.cons_append, List.nil_append]
+
+theorem rfcUtcOffset_offTo (s : Int) (h : s.natAbs < 86400) : rfcUtcOffset (offTo s) = some s := by
+  rw [offTo_eq s h]
+  generalize ha : s.natAbs = a at h ⊢
+  have hdm := Nat.div_add_mod a 3600
+  have hdm2 := Nat.div_add_mod (a % 3600) 60
+  have e60 : a % 3600 % 60 = a % 60 := by omega
+  by_cases hsec : a % 60 = 0
+  · simp only [hsec, ne_eq, not_true_eq_false, if_false]
+    unfold rfcUtcOffset
+    simp only [num2_dig (a / 3600) (by omega), num2_dig (a % 3600 / 60) (by omega),
+      isDigit_dig _ (show a / 3600 / 10 < 10 by omega), isDigit_dig _ (show a / 3600 % 10 < 10 by omega),
+      isDigit_dig _ (show a % 3600 / 60 / 10 < 10 by omega), isDigit_dig _ (show a % 3600 / 60 % 10 < 10 by omega)]
+    by_cases hneg : s < 0
+    · have h1 : decide (a / 3600 < 24) = true := by simp; omega
+      have h2 : decide (a % 3600 / 60 < 60) = true := by simp; omega
+      have hnz : ¬ (a / 3600 * 3600 + a % 3600 / 60 * 60 = 0) := by omega
+      simp [hneg, h1, h2, hnz]
+      omega
+    · have h1 : decide (a / 3600 < 24) = true := by simp; omega
+      have h2 : decide (a % 3600 / 60 < 60) = true := by simp; omega
+      simp [hneg, h1, h2]
+      omega
+  · simp only [hsec, ne_eq, not_false_eq_true, if_true]
+    unfold rfcUtcOffset hmsChars
+    simp only [num2_dig (a / 3600) (by omega), num2_dig (a % 3600 / 60) (by omega), num2_dig (a % 60) (by omega),
+      isDigit_dig _ (show a / 3600 / 10 < 10 by omega), isDigit_dig _ (show a / 3600 % 10 < 10 by omega),
+      isDigit_dig _ (show a % 3600 / 60 / 10 < 10 by omega), isDigit_dig _ (show a % 3600 / 60 % 10 < 10 by omega),
+      isDigit_dig _ (show a % 60 / 10 < 10 by omega), isDigit_dig _ (show a % 60 % 10 < 10 by omega)]
+    have h1 : decide (a / 3600 < 24) = true := by simp; omega
+    have h2 : decide (a % 3600 / 60 < 60) = true := by simp; omega
+    have h3 : decide (a % 60 < 60) = true := by simp; omega
+    by_cases hneg : s < 0
+    · have hnz : ¬ (a / 3600 * 3600 + a % 3600 / 60 * 60 + a % 60 = 0) := by omega
+      simp [hneg, h1, h2, h3, hnz]
+      omega
+    · simp [hneg, h1, h2, h3]
+      omega
+
 end ICal
